@@ -10,7 +10,7 @@ git -C /repo worktree add -q --detach $WT HEAD || exit 2
 cleanup() { git -C /repo worktree remove --force $WT; }
 trap cleanup EXIT
 cd $WT
-cp $SD/$DEMO $DEST
+mkdir -p $(dirname $DEST); cp $SD/$DEMO $DEST
 go test -mod=mod -vet=off -count=1 "$@" > $SD/demo_unmodified.out 2>&1; rc0=$?
 git apply $SD/patch.diff || { echo "patch does not apply"; exit 2; }
 go build ./... || { echo "does not build"; exit 2; }
